@@ -22,4 +22,25 @@ def itemOrder : OItem → OItem → Bool
     let t2 := if u2 > p2 then u2 else p2
     decide (t1 > t2)                        -- t1.After(t2)
 
+/-- The ranking key: `none` for nil (ranks before every object), otherwise the later of the
+published / updated instants. -/
+def key : OItem → Option Int
+  | .nil => none
+  | .obj p u => some (max p u)
+
+/-! A sort that asks only the comparator (the model of `sort.Slice(items, ItemOrderTimestamp)`):
+each element is inserted before the first one it ranks strictly before. -/
+section CmpSort
+variable {α : Type} (less : α → α → Bool)
+
+def insBy (x : α) : List α → List α
+  | [] => [x]
+  | y :: r => if less x y then x :: y :: r else y :: insBy x r
+
+def sortBy : List α → List α
+  | [] => []
+  | x :: r => insBy less x (sortBy r)
+
+end CmpSort
+
 end APModel.Order
